@@ -64,3 +64,26 @@ def run_lemmas(ctx):
     sets = ["fullA", "fullB", "fullC"] if ctx.tier == "quick" else ["fullA", "fullB", "fullC", "fullD"]
     jobs = [dict(module="Full", cfg_text=cfg(s, n).replace("CONSTRAINT Emit\n", "INVARIANTS %s\n" % LEMMAS), name="Full_lemmas_%s%d" % (s, n), workers=8, timeout=6000) for s in sets]
     ctx.tlc_many(jobs, parallel=2)
+
+
+def doc_crosscheck(ctx, plans, tag, doc_cfg):
+    """Doc.tla and Full.tla decide the same thing independently (abstract document -> HTML; bytes -> HTML). TLC evaluates Full.tla's
+    Model (FullTrace.tla) on the canonical serialization of every generated document - and, for the formatter's construct set, on the
+    text Doc.tla's formatter program writes - and the HTML must be the one Doc.tla denotes. No code is involved: a disagreement is a
+    defect of the specification (exit 2), never a verdict. Returns the number of documents on which the two models agree."""
+    import os
+    import vlib
+    jobs = [dict(module="Doc", cfg_text=doc_cfg(*p), name="DocX%s_%s_%s_%d" % (tag, p[2], p[3], p[0]), workers=8, timeout=6000) for p in plans]
+    rs = ctx.tlc_many(jobs, parallel=3)
+    outs = [x["out"] for x in rs]
+    fname = "docx_%s.ndjson" % tag
+    ctx.harness(["doc", "fmtgen", os.path.join(ctx.specdir, fname)] + outs)
+    cfg_text = "INIT Init\nNEXT Next\nCHECK_DEADLOCK FALSE\nCONSTANTS\n  File = \"%s\"\n" % fname
+    r = ctx.tlc("FullTrace", cfg_text, name="FullTrace_docx_" + tag, workers=16, timeout=6000, cont=True, xss="1g")
+    rc, res, _ = ctx.harness(["doc", "fmtcheck", r["out"]] + outs)
+    x = res.get("extra") or {}
+    n = x.get("model_theorem_agree", 0)
+    if x.get("model_theorem_differ") or n != x.get("model_theorem_expected", -1) or not n:
+        raise vlib.Infra("Full.tla and Doc.tla disagree about the meaning of a canonical / formatted document (a defect of the specification, not a verdict): %s"
+                         % str(x.get("model_theorem_differ"))[:1500])
+    return n
